@@ -377,13 +377,16 @@ RTRLIB_EXPORT int pfx_table_validate_r(struct pfx_table *pfx_table, struct pfx_r
 	}
 
 	if (reason_len && reason) {
+		struct pfx_record *tmp;
+
 		*reason_len = ((struct node_data *)node->data)->len;
-		*reason = lrtr_realloc(*reason, *reason_len * sizeof(struct pfx_record));
-		if (!*reason) {
+		tmp = lrtr_realloc(*reason, *reason_len * sizeof(struct pfx_record));
+		if (!tmp) {
 			pthread_rwlock_unlock(&pfx_table->lock);
 			pfx_table_free_reason(reason, reason_len);
 			return PFX_ERROR;
 		}
+		*reason = tmp;
 		if (pfx_table_node2pfx_record(node, *reason, *reason_len) == PFX_ERROR) {
 			pthread_rwlock_unlock(&pfx_table->lock);
 			pfx_table_free_reason(reason, reason_len);
@@ -407,15 +410,18 @@ RTRLIB_EXPORT int pfx_table_validate_r(struct pfx_table *pfx_table, struct pfx_r
 
 		if (reason_len && reason) {
 			unsigned int r_len_old = *reason_len;
-			*reason_len += ((struct node_data *)node->data)->len;
-			*reason = lrtr_realloc(*reason, *reason_len * sizeof(struct pfx_record));
-			struct pfx_record *start = *reason + r_len_old;
+			struct pfx_record *tmp;
 
-			if (!*reason) {
+			*reason_len += ((struct node_data *)node->data)->len;
+			tmp = lrtr_realloc(*reason, *reason_len * sizeof(struct pfx_record));
+			if (!tmp) {
 				pthread_rwlock_unlock(&pfx_table->lock);
 				pfx_table_free_reason(reason, reason_len);
 				return PFX_ERROR;
 			}
+			*reason = tmp;
+			struct pfx_record *start = *reason + r_len_old;
+
 			if (pfx_table_node2pfx_record(node, start, ((struct node_data *)node->data)->len) ==
 			    PFX_ERROR) {
 				pthread_rwlock_unlock(&pfx_table->lock);
